@@ -172,8 +172,25 @@ Proof.
     rewrite app_length, HI, A. split; [|lia]. rewrite Z2Nat.inj_add by lia. reflexivity.
 Qed.
 
+(* the Z-counted index list is the nat-counted one *)
+Lemma zrange_spec : forall n s, zrange n s = map (fun k => (s + Z.of_nat k)%Z) (List.seq 0%nat n).
+Proof.
+  induction n as [|n IH]; intro s; [reflexivity|].
+  cbn [zrange List.seq map]. rewrite IH. f_equal.
+  - cbn [Z.of_nat]. rewrite Z.add_0_r. reflexivity.
+  - rewrite <- seq_shift, map_map. apply map_ext. intro k.
+    rewrite Nat2Z.inj_succ. unfold Z.succ. rewrite Z.add_assoc, <- (Z.add_assoc s 1), (Z.add_comm 1), Z.add_assoc. reflexivity.
+Qed.
+
+Lemma paint_unfold : forall N ws,
+  paint N ws = map (fun k => existsb (in_window (Z.of_nat k)) ws) (List.seq 0%nat (Z.to_nat N)).
+Proof.
+  intros N ws. unfold paint. rewrite zrange_spec, map_map. apply map_ext. intro k.
+  rewrite Z.add_0_l. reflexivity.
+Qed.
+
 Lemma paint_length : forall N ws, length (paint N ws) = Z.to_nat N.
-Proof. intros N ws. unfold paint. rewrite map_length, seq_length. reflexivity. Qed.
+Proof. intros N ws. rewrite paint_unfold. rewrite map_length, seq_length. reflexivity. Qed.
 
 Lemma forge_lengths : forall (V : Type) (I : block -> list V) b SR ds f,
   (forall k, length (I k) = Z.to_nat (bn k)) ->
@@ -222,7 +239,7 @@ Lemma paint_spec : forall N ws k,
   (0 <= k < N)%Z ->
   (nth (Z.to_nat k) (paint N ws) false = true <-> exists w, In w ws /\ (fst w <= k < snd w)%Z).
 Proof.
-  intros N ws k Hk. unfold paint.
+  intros N ws k Hk. rewrite paint_unfold.
   set (F := fun k0 : nat => existsb (in_window (Z.of_nat k0)) ws).
   assert (nth (Z.to_nat k) (map F (List.seq 0 (Z.to_nat N))) false = F (Z.to_nat k)) as ->.
   { rewrite (nth_indep _ false (F 0%nat)) by (rewrite map_length, seq_length; lia).
